@@ -34,6 +34,19 @@ def cases(ctx):
         singles["format_opt_" + f] = {"type": "object", "properties": {"o": {"type": ["string", "null"], "format": f}}}
     for nm, sch in sorted(singles.items()):
         out.append(("single:" + nm, {"settings": sts[len(nm) % 2], "calls": [{"root": {"definitions": {"Only": sch}}}]}))
+    # the constructs that render a map or a default, again under a configured map type that is none of the three typify knows:
+    # whatever the output then names must still be reported by the `uses_` flags
+    for nm in ("default_obj", "default_any", "any_map", "key_pattern", "pat_props"):
+        out.append(("single-maptype:" + nm, {"settings": {"map_type": "::my_maps::SortedMap"}, "calls": [{"root": {"definitions": {"Only": singles[nm]}}}]}))
+    # a definition replaced by an existing type that has SOME of the string conversions (std's PathBuf: FromStr, no Display;
+    # IpAddr: both; with and without declaring them), used as a variant of an untagged enum and as a newtype's inner type: what
+    # the enum / newtype then claims must be what its emitted impls can deliver (the compiled stage type-checks them)
+    rdoc = {"definitions": {"Token": {"type": "string"}, "Either": {"oneOf": [{"$ref": "#/definitions/Token"}, {"type": "integer"}]},
+                            "Wrapped": {"type": "object", "properties": {"t": {"$ref": "#/definitions/Token"}, "e": {"$ref": "#/definitions/Either"}}}}}
+    for path, imps in (("::std::path::PathBuf", ["FromStr"]), ("::std::path::PathBuf", []), ("::std::net::IpAddr", ["FromStr", "Display"]),
+                       ("::std::net::IpAddr", ["Display"]), ("::std::net::IpAddr", ["FromStr"])):
+        out.append(("replaced:%s:%s" % (path.split("::")[-1], "+".join(imps) or "none"),
+                    {"settings": {"replace": [{"name": "Token", "replace": path, "impls": imps}]}, "calls": [{"root": rdoc}]}))
     import corpus
     for cid, cdoc, _ in corpus.documents():
         if cid.startswith(("hand:", "file:")): out.append(("corpus:" + cid, {"settings": sts[len(cid) % 3], "calls": [{"root": cdoc}]}))
@@ -125,12 +138,28 @@ def oracle_case(real_types, summary, code, uses, type_mod):
         if pat in ns(code) and not uses.get(crate): f.append(("<uses>", "path of crate %s appears, uses_%s false" % (crate, crate)))
     return f
 
+def _native_default(dump):
+    """some member / named type with a schema default REACHES a native type (chrono, uuid, std::net, a replacement ..): the one
+    place where the default expression of the unchanged tree goes through `::serde_json::from_str` (value.rs output_value)"""
+    if not dump: return False
+    import irutil
+    es = irutil.entries(dump)
+    def reaches_native(i):
+        try: return any(es[j]["kind"] == "native" for j in irutil.reachable(dump, i) if j in es)
+        except Exception: return False
+    for i, e in es.items():
+        props = list(e.get("props") or []) + [p for v in e.get("variants") or [] if isinstance(v.get("details"), dict) for p in v["details"].get("struct", [])]
+        for p in props:
+            if isinstance(p.get("state"), dict) and reaches_native(p["type_id"]): return True
+        if e.get("default") is not None and reaches_native(i): return True
+    return False
+
 def attribute(fail, findings, dump=None):
     for fd in findings:
         # the finding is about serde_json paths that come from DEFAULT VALUE expressions only: a space that holds a
         # serde_json::Value (or Map) type must have the flag set by the conversion itself
         if fd["id"] == "C17-serde-json-default" and fail[0] == "<uses>" and "serde_json" in fail[1] and \
-                not (dump and any(e.get("kind") == "json_value" for e in dump["entries"].values())): return fd
+                not (dump and any(e.get("kind") == "json_value" for e in dump["entries"].values())) and _native_default(dump): return fd
     return None
 
 def run(ctx):
@@ -162,14 +191,19 @@ def run(ctx):
         from batch import Batch
         b = Batch(ctx, assertions=True, ops=())
         # every one-construct document (each string format of T2 among them), then the others while the budget lasts
-        singles_ = [i for i in ok if cs[i][0].startswith("single:")]
-        sel = singles_ + [i for i in ok if not cs[i][0].startswith("single:")][: (150 if ctx.tier == "thorough" else 30)]
+        singles_ = [i for i in ok if cs[i][0].startswith(("single:", "replaced:"))]
+        sel = singles_ + [i for i in ok if not cs[i][0].startswith(("single:", "replaced:"))][: (150 if ctx.tier == "thorough" else 30)]
         bc = []
         for i in sel:
             c = b.add_case(cs[i][1]["calls"], cs[i][1]["settings"], tag=cs[i][0]); c.request = cs[i][1]; bc.append(c)
         b.prepare(); b.build()
         for c in bc:
             if c.compiled: compiled += 1
+            elif c.tag.startswith("replaced:") and not c.skipped:
+                # the replaced type exists (std) and has exactly the conversions declared or more: an emitted impl that does not
+                # type-check is a conversion the type space claims (has_impl) and the generated type does not have
+                errs = [e for e in (c.rustc_errors or []) if any(w in (e.get("message") or "") for w in ("Display", "FromStr", "fmt", "from_str", "parse"))]
+                if errs: assert_fail.append((c, {"bound": "emitted impl", "type": c.tag, "message": errs[0].get("message")}))
             for e in (c.assert_errors or []):
                 if e.get("bound") in ("FromStr", "Display", "Default"):
                     fd = next((x for x in findings if x["id"] == "C17-display" and e["bound"] == "Display"
